@@ -98,6 +98,27 @@ def run(ctx, report, clause_eq="1", clause_immut="2"):
                      {"pairs": len(members) ** 2, "mismatches": bad_ne[:3]}, clause_eq)
         report.check(not bad_hash, "R-EQHASH", site, f"{name}: equal values have equal hashes",
                      {"pairs": len(members) ** 2, "mismatches": bad_hash[:3]}, clause_eq)
+    # values whose hashes collide (found by folding __hash__ over a grid of two-component values): still different values
+    grid = [0, 1, 2, 5, 7, 11, 13, 19, 23, 29, 31, 39, 41, 43, 51, 53, 59, 60, 61, 71, 73, 83, 89, 100]
+    for name, build in (("Point", "Point(a, b)"), ("Stretch", "Stretch(a, b)")):
+        site = ctx.index.get_class("pycaption/geometry.py", name).find_method("__eq__") or cls_site
+        buckets, wrong, n_coll = {}, [], 0
+        try:
+            for x, y in itertools.product(grid, repeat=2):
+                o = ev(build, a=size((x, "PERCENT")), b=size((y, "PERCENT")))
+                buckets.setdefault(ev("hash(a)", a=o), []).append(((x, y), o))
+            for members in buckets.values():
+                for (sa, a), (sb, b) in itertools.combinations(members, 2):
+                    n_coll += 1
+                    total += 1
+                    if bool(ev("a == b", a=a, b=b)) or not bool(ev("a != b", a=a, b=b)):
+                        wrong.append({"a": f"{name}{sa} (percent)", "b": f"{name}{sb} (percent)", "hashes": "equal", "a == b": True})
+        except FoldRaise as e:
+            wrong.append({"raises": f"{e.exc_name}: {e}"[:120]})
+        except AnalysisError as e:
+            raise AnalysisError(f"geometry values: {name} cannot be folded on the collision grid: {e}")
+        report.check(not wrong, "R-EQHASH", site, f"{name}: different values whose hashes collide ({n_coll} such pairs among "
+                     f"{len(grid) ** 2} grid values) still compare unequal", {"colliding_pairs": n_coll, "mismatches": wrong[:3]}, clause_eq)
     report.count("geometry_value_pairs_folded", total)
     if clause_immut is None:
         return
